@@ -1,12 +1,23 @@
 //! C14 - virtual signals are computed from the same row's outputs, blind to variables.
+//!
+//! As built (DESIGN 8.4b): self-consistent oracle, no reference interpreter. For every checked
+//! row the declared expressions are evaluated by the harness's independent evaluator over the
+//! answers the recording driver gave in the call made for that very row, with no variables;
+//! the row's virtual entries must show exactly that (64 bits wide), a Z/X read means the row
+//! must have been an error item, and the expected value of a virtual entry is the literal in
+//! its column (known from the generating program through the row's tag) or X without a column.
+
+use std::collections::BTreeMap;
 
 use crate::choice::Ch;
 use crate::device::*;
 use crate::engine::*;
 use crate::gen::*;
+use crate::model::*;
+use crate::probe::*;
 use crate::props::common::*;
 use crate::real::*;
-use crate::ri;
+use crate::ri::{eval_expr, Hazard, MapResolver};
 
 pub struct C14;
 
@@ -22,6 +33,8 @@ fn virtual_cfg() -> Cfg {
     c.widths = Widths::All64;
     c.expr.boundary = true;
     c.expr.radix = false;
+    // the device may answer with 64-bit boundary values: never use one directly as a loop bound
+    c.small_device = false;
     c
 }
 
@@ -30,7 +43,7 @@ impl Property for C14 {
         "C14"
     }
     fn rule(&self) -> &'static str {
-        "profile `virtual`: 1-4 `declare`s over output-capable signals (all operators, ite, boundary literals), placed at the top, between rows, inside loops and whiles; variables and loop counters named like the outputs they read (Q, R, IO are in the variable pool); header with or without the virtual's column; device answers that change on every call and are Z/X in some cases. Oracle: per checked row the virtual entry is 64 bits wide, its output equals the declared expression evaluated by the independent evaluator over the answers of that same call with an empty variable environment, its expected value is the entry of its column or X; if the expression reads a Z/X answer in that call the item is an error item (not a row, not a panic). Non-trivial: >= 1 declare evaluated in >= 2 checked rows, or a variable named like a read output is in scope at a checked row; distinct by source + signals + driver."
+        "profile `virtual`: 1-4 `declare`s over output-capable signals (all operators, ite, boundary literals), placed at the top, between rows, inside loops and whiles; variables and loop counters named like the outputs they read (Q, R, IO are in the variable pool); header with or without the virtual's column; device answers that change on every call and are Z/X in a quarter of the cases; the caller keeps iterating after error items; every row statement carries a tag. Oracle (self-consistent): per checked row, each declared expression is evaluated by the independent evaluator over the answers the recording driver gave in the call made for that row, with an empty variable environment: the virtual entry is 64 bits wide and shows that value; if the expression reads a Z/X answer of that call the item must be an error item, not a row; the entry's expected value is the literal (number, X, Z) in the virtual's column of that source row, or X if the header has no such column. Non-trivial: >= 1 declare checked in >= 2 checked rows, or a variable named like a read output definitely in scope at a checked row, or a Z/X error item due; distinct by source + signals + driver."
     }
     fn cases(&self, tier: Tier) -> u64 {
         match tier {
@@ -39,16 +52,15 @@ impl Property for C14 {
         }
     }
     fn required_classes(&self) -> Vec<&'static str> {
-        vec!["declare", "declares>=2", "virtual-zx-error-due", "same-named-variable-in-scope", "virtual-without-column", "declare-in-block", "clock-triple", "checked-row-after-virtual-error"]
+        vec!["declare", "declares>=2", "virtual-zx-error-seen", "same-named-variable-in-scope", "virtual-without-column", "declare-in-block", "clock-triple", "checked-row-after-virtual-error", "literal-expected-checked"]
     }
     fn run(&self, s: &Streams) -> CaseOut {
         let mut out = CaseOut::new();
         let mut built = gen_case(&mut Ch::new(&s[0]), &virtual_cfg());
         // operator binding is C08's business: every operand is parenthesised
         parenthesise_program(&mut built.prog.stmts);
-        let rendered = crate::print::canonical(&built.prog);
-        let row_lines = rendered.row_line.clone();
-        let text = rendered.text;
+        let rows = instrument(&mut built, &mut Ch::new(&s[1]), 0, ProbePref::Vars, &[]);
+        let text = built_text(&built);
         let mut dch = Ch::new(&s[2]);
         let mut spec = gen_spec(
             &mut dch,
@@ -68,112 +80,164 @@ impl Property for C14 {
             out.discard("no-declare");
             return out;
         }
+        let virtuals: Vec<(String, Expr)> = built.prog.virtuals().iter().map(|(n, e)| (n.to_string(), (*e).clone())).collect();
         let mut in_block = false;
         built.prog.visit_stmts(&mut |st, d| {
-            if matches!(st, crate::model::Stmt::Declare(..)) && d > 0 {
+            if matches!(st, Stmt::Declare(..)) && d > 0 {
                 in_block = true
             }
         });
         out.class_if(in_block, "declare-in-block");
-        out.class_if(built.analysis.virtuals.iter().any(|v| !built.prog.header.contains(v)), "virtual-without-column");
-        // the caller keeps iterating after a virtual signal made a row an error item
-        let t = ri::run(&built.prog, &built.sigs, &spec, &ri::RiOpts { continue_after_virtual_error: true, ..Default::default() });
-        fact_classes(&mut out, &t);
-        if matches!(t.end, ri::RiEnd::StepCap) && t.items.is_empty() {
-            out.discard("step-cap-before-first-row");
-            return out;
-        }
-        let last_h = t.items.iter().rev().find_map(|i| match i {
-            ri::RiItem::Hazard { hazard, after_call } => Some((hazard.clone(), *after_call)),
-            _ => None,
-        });
-        out.class_if(matches!(&last_h, Some((ri::Hazard::ZxRead(_), true))), "virtual-zx-error-due");
-        // rows that follow an error item caused by a virtual signal
-        let mut after_err = false;
-        let mut seen_err = false;
-        for i in &t.items {
-            match i {
-                ri::RiItem::Hazard { after_call: true, .. } => seen_err = true,
-                ri::RiItem::Row(r) if seen_err && r.checked => after_err = true,
-                _ => {}
-            }
-        }
-        out.class_if(after_err, "checked-row-after-virtual-error");
-        // a variable named like an output that a virtual signal reads is in scope at a checked row
+        out.class_if(virtuals.iter().any(|(v, _)| !built.prog.header.contains(v)), "virtual-without-column");
         let vreads: Vec<String> = {
             let mut v = vec![];
-            for (_, e) in built.prog.virtuals() {
+            for (_, e) in &virtuals {
                 e.visit(&mut |x| {
-                    if let crate::model::Expr::Var(n) = x {
+                    if let Expr::Var(n) = x {
                         v.push(n.clone())
                     }
                 });
             }
             v
         };
-        let shadow = t.items.iter().any(|i| matches!(i, ri::RiItem::Row(r) if r.checked && r.env.keys().any(|k| vreads.contains(k))));
-        out.class_if(shadow, "same-named-variable-in-scope");
         let Some(tc) = load_wellformed(&mut out, "c14", &text, &built.sigs) else {
             return out;
         };
-        let real = run_real(&tc, &built.sigs, &spec, &RunOpts { max_next: next_budget(&t), fuel: fuel_for(t.facts.steps), continue_after_error: true, ..Default::default() });
-        // Walk both traces in lock-step. Only the virtual entries (and error items caused by
-        // virtual signals) are this property's; as soon as anything else differs from the
-        // reference - inputs, ordinary expected/output values, row count, other errors - the
-        // comparison stops quietly: that is some other property's business.
-        if let Some(RealItem::Panic(p)) = &real.ctor {
-            out.fail(p.key(), format!("constructor panicked: {p}"));
-            return out;
+        let real = run_real(&tc, &built.sigs, &spec, &RunOpts { max_next: 300, continue_after_error: true, ..Default::default() });
+        match &real.ctor {
+            Some(RealItem::Panic(p)) => {
+                out.fail(p.key(), format!("constructor panicked: {p}"));
+                return out;
+            }
+            Some(_) => {
+                out.discard("constructor-failed");
+                return out;
+            }
+            None => {}
         }
-        if real.ctor.is_none() {
-            for (i, item) in t.items.iter().enumerate() {
-                let Some(ritem) = real.items.get(i) else { break };
-                match (item, ritem) {
-                    (ri::RiItem::Row(a), RealItem::Row(b)) => {
-                        let non_virtual = Projection { inputs: true, expected: true, outputs: true, checkedness: true, virtual_only: false };
-                        // compare the non-virtual part first (virtual entries masked out)
-                        let mut a2 = a.clone();
-                        a2.outputs.retain(|o| !o.is_virtual);
-                        let mut b2 = b.clone();
-                        b2.outputs.retain(|o| !o.is_virtual);
-                        if row_diff(&a2, &b2, non_virtual).is_some() || row_lines.get(a.row_id) != Some(&b.line) {
-                            // a different source row, or different values: not this property's
-                            out.class("rows-diverged");
-                            break;
-                        }
-                        if a.checked && b.outputs.len() != a.outputs.len() {
-                            out.fail(
-                                "c14:virtual-entry-count",
-                                format!("item {i}: the row has {} output entries, {} are due ({} virtual)", b.outputs.len(), a.outputs.len(), a.outputs.iter().filter(|o| o.is_virtual).count()),
-                            );
-                            break;
-                        }
-                        if let Some(d) = row_diff(a, b, Projection::VIRTUAL) {
-                            out.fail("c14:virtual-entry", format!("item {i}: {d}\n reference: {}\n real:      {}", fmt_ri_row(a), ritem.short()));
-                            break;
+        let mut checked_rows = 0usize;
+        let mut nontrivial = false;
+        let mut seen_virtual_error = false;
+        for (i, item) in real.items.iter().enumerate() {
+            let before = real.log_len_before[i];
+            let after = real.log_len_before.get(i + 1).copied().unwrap_or(real.log.len());
+            // the answers of the call made for this item, by signal name
+            let answer: Option<BTreeMap<String, OutVal>> = if after == before + 1 && real.log[before].read {
+                Some(real.log[before].answer.iter().map(|(si, v)| (built.sigs[*si].name.clone(), *v)).collect())
+            } else {
+                None
+            };
+            let eval_all = |outs: &BTreeMap<String, OutVal>| -> Vec<(String, Result<i64, Hazard>)> {
+                virtuals.iter().map(|(n, e)| (n.clone(), eval_expr(e, &mut MapResolver { vars: None, outs }))).collect()
+            };
+            match item {
+                RealItem::Panic(p) => {
+                    out.fail(p.key(), format!("item {i} panicked: {p}"));
+                    return out;
+                }
+                RealItem::DriverErr(_) => break,
+                RealItem::RuntimeErr(_) => {
+                    if let Some(outs) = &answer {
+                        if eval_all(outs).iter().any(|(_, r)| matches!(r, Err(Hazard::ZxRead(_)))) {
+                            out.class("virtual-zx-error-seen");
+                            seen_virtual_error = true;
+                            nontrivial = true;
+                            continue;
                         }
                     }
-                    (ri::RiItem::Hazard { after_call: true, .. }, RealItem::RuntimeErr(_)) => {}
-                    (ri::RiItem::Hazard { hazard, after_call: true }, RealItem::Row(_)) => {
+                    // some other error (an expression of the program, most likely): what the
+                    // program state is afterwards is not this property's business
+                    break;
+                }
+                RealItem::Row(row) => {
+                    if after != before + 1 {
+                        out.discard("call-protocol-broken");
+                        return out;
+                    }
+                    if row.outputs.is_empty() {
+                        out.class("clock-triple");
+                        continue;
+                    }
+                    let Some(outs) = &answer else {
+                        out.discard("call-protocol-broken");
+                        return out;
+                    };
+                    checked_rows += 1;
+                    out.class_if(seen_virtual_error, "checked-row-after-virtual-error");
+                    let info = match row.inputs.iter().find(|e| e.0 == "TAG").map(|e| e.1) {
+                        Some(InVal::Val(t)) => rows.get(&((t - 1) as usize)),
+                        _ => None,
+                    };
+                    if let Some(info) = info {
+                        if info.definite.iter().any(|n| vreads.contains(n)) {
+                            out.class("same-named-variable-in-scope");
+                            nontrivial = true;
+                        }
+                    }
+                    let n_virtual = row.outputs.iter().filter(|o| o.is_virtual).count();
+                    if n_virtual != virtuals.len() {
                         out.fail(
-                            "c14:row-instead-of-error",
-                            format!("item {i}: a virtual signal reads a Z/X output in this call ({hazard:?}); the row must be an error item, got {}", ritem.short()),
+                            "c14:virtual-entry-count",
+                            format!("item {i}: the checked row has {n_virtual} virtual entries, the test declares {}", virtuals.len()),
                         );
-                        break;
+                        return out;
                     }
-                    (_, RealItem::Panic(p)) => {
-                        out.fail(p.key(), format!("item {i} panicked: {p}"));
-                        break;
-                    }
-                    _ => {
-                        out.class("rows-diverged");
-                        break;
+                    for (name, want) in eval_all(outs) {
+                        let Some(entry) = row.outputs.iter().find(|o| o.is_virtual && o.name == name) else {
+                            out.fail("c14:virtual-entry-missing", format!("item {i}: no entry for the declared signal {name}"));
+                            return out;
+                        };
+                        if entry.bits != 64 {
+                            out.fail("c14:virtual-width", format!("item {i}: virtual signal {name} is {} bits wide, must be 64", entry.bits));
+                            return out;
+                        }
+                        match want {
+                            Ok(v) => {
+                                if entry.output != OutVal::Val(v) {
+                                    out.fail(
+                                        "c14:virtual-value",
+                                        format!(
+                                            "item {i}: {name} = {} reported; the declared expression over the outputs the driver returned for this row ({outs:?}), with no variables, is {v}",
+                                            entry.output
+                                        ),
+                                    );
+                                    return out;
+                                }
+                            }
+                            Err(Hazard::ZxRead(sig)) => {
+                                out.fail(
+                                    "c14:row-instead-of-error",
+                                    format!(
+                                        "item {i}: the declared signal {name} reads {sig}, for which the driver returned {:?} in this row's call; the row must be an error item, got a row with {name} = {}",
+                                        outs.get(&sig),
+                                        entry.output
+                                    ),
+                                );
+                                return out;
+                            }
+                            Err(_) => {}
+                        }
+                        // expected value: the literal in the virtual's column, X without a column
+                        let want_expected = if !built.prog.header.contains(&name) {
+                            Some(ExpVal::X)
+                        } else {
+                            info.and_then(|inf| inf.literal_cols.iter().find(|(h, _)| *h == name).map(|(_, v)| *v))
+                        };
+                        if let Some(we) = want_expected {
+                            out.class("literal-expected-checked");
+                            if entry.expected != we {
+                                out.fail(
+                                    "c14:virtual-expected",
+                                    format!("item {i}: the expected value of {name} is {}, its column holds the literal {we} (X when the header has no such column)", entry.expected),
+                                );
+                                return out;
+                            }
+                        }
                     }
                 }
             }
         }
-        let checked = t.items.iter().filter(|i| matches!(i, ri::RiItem::Row(r) if r.checked)).count();
-        out.nontrivial = checked >= 2 || shadow || matches!(&last_h, Some((_, true)));
+        out.nontrivial = nontrivial || checked_rows >= 2;
         out
     }
 }
